@@ -91,11 +91,26 @@ func c13InitChildBody(t *testing.T, seed uint64, kind int) {
 		}()
 	}()
 	ps := sim.NewParkSched(seed)
+	// under the race detector the activities run freely (see ParkSched.Free)
+	ps.Free = os.Getenv("VERIF_C13INIT_FREE") != ""
 	// the first 11 choices are the low bits of the seed (systematic enumeration), the rest is seeded
 	for i := 0; i < 11; i++ {
 		ps.Script = append(ps.Script, int(seed>>uint(i))&1)
 	}
 	var werr, herr error
+	var emu sync.Mutex // the tasks run concurrently under the race detector (ParkSched.Free)
+	setW := func(err error) {
+		emu.Lock()
+		if err != nil && werr == nil {
+			werr = err
+		}
+		emu.Unlock()
+	}
+	setH := func(err error) {
+		emu.Lock()
+		herr = err
+		emu.Unlock()
+	}
 	var height func() uint64
 	if kind == 0 {
 		svc, err := rsync.NewHeaderSyncService(disk.Open(), cfg, c13InitGenesis, pc, logger)
@@ -107,11 +122,12 @@ func c13InitChildBody(t *testing.T, seed uint64, kind int) {
 		}
 		ps.Go(func() {
 			ps.Yield()
-			werr = svc.WriteToStoreAndBroadcast(ctx, c13InitHeader)
+			setW(svc.WriteToStoreAndBroadcast(ctx, c13InitHeader))
 		})
 		ps.Go(func() {
 			ps.Yield()
-			_, herr = svc.Store().Head(ctx)
+			_, e := svc.Store().Head(ctx)
+			setH(e)
 		})
 		height = svc.Store().Height
 	} else if kind == 2 || kind == 3 {
@@ -159,8 +175,8 @@ func c13InitChildBody(t *testing.T, seed uint64, kind int) {
 			ps.Go(func() {
 				ps.Yield()
 				for _, hd := range c13InitHeaders[2:] {
-					if err := svc.Store().Append(ctx, hd); err != nil && werr == nil {
-						werr = fmt.Errorf("sync loop, header %d: %w", hd.Height(), err)
+					if err := svc.Store().Append(ctx, hd); err != nil {
+						setW(fmt.Errorf("sync loop, header %d: %w", hd.Height(), err))
 					}
 					time.Sleep(2 * time.Millisecond)
 					ps.Yield()
@@ -168,25 +184,26 @@ func c13InitChildBody(t *testing.T, seed uint64, kind int) {
 			})
 			ps.Go(func() {
 				ps.Yield()
-				if err := svc.Store().Append(ctx, c13InitHeaders[2]); err != nil && werr == nil {
-					werr = fmt.Errorf("incoming head, header 3: %w", err)
+				if err := svc.Store().Append(ctx, c13InitHeaders[2]); err != nil {
+					setW(fmt.Errorf("incoming head, header 3: %w", err))
 				}
 				ps.Yield()
-				if err := svc.Store().Append(ctx, c13InitHeaders[2:]...); err != nil && werr == nil {
-					werr = fmt.Errorf("incoming head, headers 3..: %w", err)
+				if err := svc.Store().Append(ctx, c13InitHeaders[2:]...); err != nil {
+					setW(fmt.Errorf("incoming head, headers 3..: %w", err))
 				}
 			})
 			ps.Go(func() {
 				ps.Yield()
-				_, herr = svc.Store().Head(ctx)
+				_, e := svc.Store().Head(ctx)
+			setH(e)
 			})
 			height = svc.Store().Height
 		} else {
 			ps.Go(func() {
 				ps.Yield()
 				for _, hd := range c13InitHeaders[2:] {
-					if err := svc.WriteToStoreAndBroadcast(ctx, hd); err != nil && werr == nil {
-						werr = fmt.Errorf("header %d: %w", hd.Height(), err)
+					if err := svc.WriteToStoreAndBroadcast(ctx, hd); err != nil {
+						setW(fmt.Errorf("header %d: %w", hd.Height(), err))
 					}
 					time.Sleep(2 * time.Millisecond) // the store's writer goroutine publishes the appended header
 					ps.Yield()
@@ -195,7 +212,8 @@ func c13InitChildBody(t *testing.T, seed uint64, kind int) {
 			for k := 0; k < 2; k++ {
 				ps.Go(func() {
 					ps.Yield()
-					_, herr = svc.Store().Head(ctx)
+					_, e := svc.Store().Head(ctx)
+			setH(e)
 				})
 			}
 			height = svc.Store().Height
@@ -210,11 +228,12 @@ func c13InitChildBody(t *testing.T, seed uint64, kind int) {
 		}
 		ps.Go(func() {
 			ps.Yield()
-			werr = svc.WriteToStoreAndBroadcast(ctx, c13InitData)
+			setW(svc.WriteToStoreAndBroadcast(ctx, c13InitData))
 		})
 		ps.Go(func() {
 			ps.Yield()
-			_, herr = svc.Store().Head(ctx)
+			_, e := svc.Store().Head(ctx)
+			setH(e)
 		})
 		height = svc.Store().Height
 	}
@@ -328,6 +347,49 @@ func c13InitRange(kind int, from, to uint64) (ran int, bad []c13InitResult) {
 	return ran, bad
 }
 
+// c13InitRaceRange runs schedules [from,to) of a kind in the race-detector build of this package (VERIF_RACE_BIN), the
+// activities running freely. It returns the number of schedules run and, for every data race the detector reports
+// with an access inside the repository's own code, the function and the report.
+func c13InitRaceRange(kind int, from, to uint64) (ran int, races []string, infra string) {
+	bin := os.Getenv("VERIF_RACE_BIN")
+	tmp, err := os.MkdirTemp("", "verif-c13race-")
+	if err != nil {
+		return 0, nil, err.Error()
+	}
+	defer os.RemoveAll(tmp)
+	cmd := exec.Command(bin, "-test.run", "^TestC13InitChild$", "-test.count", "1", "-test.timeout", "20m")
+	cmd.Env = append(os.Environ(), "TMPDIR="+tmp, "VERIF_C13INIT_FREE=1", "GORACE=halt_on_error=0 history_size=3", fmt.Sprintf("VERIF_C13INIT_FROM=%d", from), fmt.Sprintf("VERIF_C13INIT_TO=%d", to), fmt.Sprintf("VERIF_C13INIT_KIND=%d", kind), "GOLOG_LOG_LEVEL=fatal")
+	out, _ := cmd.CombinedOutput()
+	text := string(out)
+	ran = strings.Count(text, "C13INIT done seed=")
+	if strings.Contains(text, "SIGSEGV: segmentation violation") || strings.Contains(text, "ThreadSanitizer: CHECK failed") {
+		return ran, nil, "" // the race runtime itself crashed (toolchain problem): what ran, ran
+	}
+	if ran == 0 {
+		return 0, nil, "race-detector child ran no schedule: " + text[:min(len(text), 400)]
+	}
+	for _, rep := range strings.Split(text, "WARNING: DATA RACE")[1:] {
+		if i := strings.Index(rep, "=================="); i >= 0 {
+			rep = rep[:i]
+		}
+		// the function of each of the two accesses is the first frame after "... at 0x... by goroutine N:"
+		var own string
+		lines := strings.Split(rep, "\n")
+		for i, l := range lines {
+			if (strings.HasPrefix(l, "Write at ") || strings.HasPrefix(l, "Read at ") || strings.HasPrefix(l, "Previous write at ") || strings.HasPrefix(l, "Previous read at ")) && i+1 < len(lines) {
+				fn := strings.TrimSpace(lines[i+1])
+				if strings.HasPrefix(fn, "github.com/evstack/ev-node/") {
+					own = strings.TrimSuffix(fn, "()")
+				}
+			}
+		}
+		if own != "" {
+			races = append(races, own+"\n"+rep[:min(len(rep), 1500)])
+		}
+	}
+	return ran, races, ""
+}
+
 func lineWith(text, what string) string {
 	for _, l := range strings.Split(text, "\n") {
 		if strings.Contains(l, what) {
@@ -376,6 +438,27 @@ func TestC13InitProbe(t *testing.T) {
 // c13InitScenario runs the schedules cfg initfrom-1 .. initto-1 of service kind cfg initkind (a scenario of the C13 whole-node half).
 func c13InitScenario(s *sim.Scn, o *sim.Outcome) {
 	from, to, kind := uint64(s.Cfg["initfrom"]-1), uint64(s.Cfg["initto"]), int(s.Cfg["initkind"]%4)
+	if s.Cfg["initrace"] == 1 {
+		// the same activities, running freely, in the race-detector build: the sync service and the store wrapper
+		// are otherwise never run under the detector (whole nodes cannot be, with this toolchain)
+		name := []string{"header", "data", "header-after-restart", "duplicate-appends-after-restart"}[kind]
+		if os.Getenv("VERIF_RACE_BIN") == "" {
+			o.Count("sync-service-under-race-detector:skipped-no-race-build", 1)
+			return
+		}
+		ran, races, infra := c13InitRaceRange(kind, from, to)
+		if infra != "" {
+			panic("INFRA: " + infra)
+		}
+		o.Count("sync-service-under-race-detector:schedules-run/"+name, ran)
+		o.NonTrivial = ran > 0
+		if len(races) > 0 {
+			fn := strings.SplitN(races[0], "\n", 2)[0]
+			short := fn[strings.LastIndex(fn, "/")+1:]
+			o.Fail("C13/data-race", "C13/data-race/"+short, int(from), fmt.Sprintf("%s: activities of the sync service running freely under the race detector: %s", name, races[0]), "no data race occurs")
+		}
+		return
+	}
 	// short-lived children of 32 schedules each (goroutines of torn-down services accumulate in a child), 12 at a time
 	var mu sync.Mutex
 	var wg sync.WaitGroup
